@@ -44,6 +44,10 @@ pub struct Case {
     /// 0: none, 1: peer closes while calls are outstanding in the last wave, 2: peer closes before the last wave,
     /// 3: peer resets the socket right before the last wave is issued (write failure on a registered connection)
     pub fault: u8,
+    /// before every wave after the first, put the node's pid allocator where it would be exactly one round of ids
+    /// (2^20 allocations) later: the new calls get the identifiers of the first wave's calls with the next serial
+    #[serde(default)]
+    pub reuse_ids: bool,
 }
 
 #[derive(Debug)]
@@ -113,7 +117,13 @@ fn run_net(c: &Case) -> Result<Result<NetOut, String>, BedErr> {
         let n_waves = c.waves.len();
         local
             .run_until(async {
+                let id0 = node.verif_pid_allocator().next_id_test_only().load(std::sync::atomic::Ordering::SeqCst);
                 for (w, wave) in c.waves.iter().enumerate() {
+                    if c.reuse_ids && w > 0 {
+                        let a = node.verif_pid_allocator();
+                        a.next_id_test_only().store(id0, std::sync::atomic::Ordering::SeqCst);
+                        a.next_serial_test_only().fetch_add(1, std::sync::atomic::Ordering::SeqCst);
+                    }
                     if c.fault == 2 && w + 1 == n_waves {
                         if let Some(pc) = p.take() {
                             pc.close_gracefully();
@@ -322,6 +332,7 @@ pub fn oracle(c: &Case) -> Verdict {
         info.class_if(fault_path, "timeout-or-fault-path")
             .class_if(out.permuted, "replies-permuted")
             .class_if(c.waves.len() >= 2, "late-replies-into-next-wave")
+            .class_if(c.waves.len() >= 2 && c.reuse_ids, "caller-ids-reused-after-a-round")
             .class_if(c.fault != 0, "peer-closes")
             .class_if(out.switched > 0, "schedule-yields"),
     )
@@ -330,8 +341,8 @@ pub fn oracle(c: &Case) -> Verdict {
 fn strategy() -> impl Strategy<Value = Case> {
     let reply = prop_oneof![4 => Just(Reply::Now), 3 => (0u8..8).prop_map(Reply::After), 2 => Just(Reply::Never), 1 => Just(Reply::Twice), 2 => Just(Reply::NowAndLate)];
     let call = (any::<u8>(), reply, prop::bool::weighted(0.08)).prop_map(|(timeout_s, reply, unknown_node)| Call { timeout_s, reply, unknown_node });
-    (prop::collection::vec(prop::collection::vec(call, 1..7), 1..4), prop::collection::vec(any::<u8>(), 0..6), prop::collection::vec(any::<u8>(), 0..30), 0u8..3, prop_oneof![6 => Just(0u8), 1 => Just(1u8), 1 => Just(2u8), 2 => Just(3u8)])
-        .prop_map(|(waves, perm, schedule, stray, fault)| Case { waves, perm, schedule, stray, fault })
+    (prop::collection::vec(prop::collection::vec(call, 1..7), 1..4), prop::collection::vec(any::<u8>(), 0..6), prop::collection::vec(any::<u8>(), 0..30), 0u8..3, prop_oneof![6 => Just(0u8), 1 => Just(1u8), 1 => Just(2u8), 2 => Just(3u8)], prop::bool::weighted(0.35))
+        .prop_map(|(waves, perm, schedule, stray, fault, reuse_ids)| Case { waves, perm, schedule, stray, fault, reuse_ids })
 }
 
 pub fn run(run: &mut Run) {
